@@ -156,10 +156,7 @@ private theorem defaultValueX_err (env envX : Env) (hide : Option String) (l : L
   unfold defaultValueX at h
   split at h
   · exact defaultValue_err env l t e h
-  · split at h
-    · simp at h
-    · cases h; rename_i c hc; exact defaultValue_err envX l t _ hc
-    · exact defaultValue_err env l t e h
+  · exact defaultValue_err envX l t e h
 
 private theorem buildArgumentX_err (env envX : Env) (hide : Option String) (a : InputValDef) (e : Err) (h : buildArgumentX env envX hide a = .error e) : Good e := by
   unfold buildArgumentX at h
